@@ -39,6 +39,7 @@ NUM_LEAF = st.one_of(
     st.sampled_from([('Positive',), ('Negative',), ('NonPositive',), ('NonNegative',), ('Finite',), ('even',)]),
     st.tuples(st.just('val_range'), st.one_of(st.none(), st.integers(-3, 3), st.sampled_from([0.5, -1.5])), st.one_of(st.none(), st.integers(-1, 6), st.sampled_from([2.5]))),
     st.tuples(st.just('user_gt'), st.integers(-2, 3)),
+    st.tuples(st.just('partial_gt'), st.integers(-2, 3)),
     st.tuples(st.just('raises_if'), st.integers(-1, 2)),
 )
 LEN_LEAF = st.one_of(
@@ -84,7 +85,7 @@ def thresholds(c: t.Any) -> t.List[t.Any]:
         return [x for y in c[1] for x in thresholds(y)]
     if k in ('val_range', 'len_range'):
         return [x for x in c[1:3] if x is not None]
-    if k in ('user_gt', 'raises_if'):
+    if k in ('user_gt', 'raises_if', 'partial_gt'):
         return [c[1]]
     if k in ('Positive', 'Negative', 'NonPositive', 'NonNegative', 'Empty', 'NonEmpty'):
         return [0]
@@ -146,7 +147,7 @@ def cases(draw) -> t.Any:
         if is_float:
             cands += [math.nextafter(float(th), math.inf), math.nextafter(float(th), -math.inf), -0.0, 0.0, float('inf'), float('-inf'), float('nan'), float(th)]
         else:
-            cands = [int(x) if float(x).is_integer() else math.floor(x) for x in cands] + [math.ceil(th)]
+            cands = [int(x) if float(x).is_integer() else math.floor(x) for x in cands] + [math.ceil(th), 10**400, -10**400]   # (finite, but beyond float)
         v: t.Any = draw(st.sampled_from(cands))
         if draw(st.integers(0, 9)) == 9:
             v = draw(st.sampled_from(['5', None, [1], 2.5, True]))
